@@ -86,7 +86,9 @@ Expected(B, c) ==
     [] c.op = "pd2i"  -> IndexOf(c.x, c.g)            \* only asked for instants of the window
     [] c.op = "pi2d"  -> TimeOf(c.x, c.g)
     [] c.op = "d2iclamp" -> IF c.x > 0 THEN Size(c.span, c.g) - 1 ELSE 0      \* an instant far beyond (x = 1) / before (x = -1) the table, clamping requested
-    [] c.op = "pd2ix" -> 0                             \* instants before the project start: no value is claimed, only py = cy (C13)
+    [] c.op = "d2ifar" -> IF c.force THEN Size(c.span, c.g) - 1 ELSE Err      \* an instant 2^32 + k slots after the start is not slot k
+    [] c.op = "i2dfar" -> IF c.force THEN c.span ELSE Err                     \* an index of 2^31 or more lies beyond every table
+    [] c.op = "pd2ix" -> 0                             \* instants outside the window: no value is claimed, only py = cy (C13); two 30-bit limbs
     [] c.op = "runs"  -> Runs(c.pat, c.ws, c.we, MinSlots(c.minsec, c.g))
     [] c.op = "onshift" -> OnShiftMW(B.tables[c.h + 1], c.d, c.y)
     [] c.op = "dailymin" -> DailyMinutes(B.tables[c.h + 1][c.d + 1]) * 1000000
